@@ -466,8 +466,25 @@ func ruleRetransmission(c *Ctx, rule string) {
 			}
 		})
 	}
+	// the other side of the same test: a new allocation is created only where the lookup of
+	// this very 5-tuple found none (a weaker test — e.g. one that also looks at the user —
+	// lets a second Allocate on a live 5-tuple through instead of answering 437)
+	if create := w.FuncOpt("allocation", "Manager", "CreateAllocation"); create != nil {
+		for _, f := range w.helpersOf(h) {
+			w.eachInstr(f, func(in ssa.Instruction) {
+				call, ok := in.(*ssa.Call)
+				if !ok || call.Call.StaticCallee() != create {
+					return
+				}
+				g := w.guardedBy(in, get, -1, "nil", func(g *ssa.Call) bool { ok, _ := w.requestTuple(g.Call.Args[1], h); return ok })
+				if g == nil && bad == "" {
+					bad = "CreateAllocation at " + w.instrPos(in) + " is not confined to the edge where GetAllocation(this request's 5-tuple) == nil: an Allocate on a 5-tuple that already has an allocation is not answered with 437"
+				}
+			})
+		}
+	}
 	if bad == "" && nSucc >= 1 && nMismatch >= 1 {
-		c.OK(rule, fname(h), "existing allocation path", w.pos(h.Pos()), "success only when cached id == request id; otherwise 437; no state effect on either path")
+		c.OK(rule, fname(h), "existing allocation path", w.pos(h.Pos()), "success only when cached id == request id; otherwise 437; no state effect on either path; creation only where no allocation exists")
 	} else {
 		if bad == "" {
 			bad = fmt.Sprintf("existing-allocation path lost a branch (success builds: %d, error builds: %d)", nSucc, nMismatch)
